@@ -139,6 +139,12 @@ func (t *routeTrie) match(uriPath, httpMethod string) (*routeTarget, []routeTarg
 			verb = lastElement[pos+1:]
 		}
 	}
+	// Bring every segment into the canonical escaped form that the trie's
+	// literals use, whatever subset of characters the client chose to escape.
+	for i, segment := range path {
+		path[i] = pathNormalize(segment)
+	}
+	verb = pathNormalize(verb)
 	target, methods := t.findTarget(path, verb, httpMethod)
 	if target == nil {
 		return nil, nil, methods
